@@ -3,6 +3,7 @@ package main
 // Per-function verification: entry state, loop cutting, postconditions, lock balance, model extraction.
 
 import (
+	"regexp"
 	"os"
 	"runtime"
 	"fmt"
@@ -116,7 +117,9 @@ func (e *Engine) VerifyFunction(fn *ssa.Function, con *Contract) (res *FnResult)
 	env := fx.fnEnv(st, point{fn.Blocks[0], 0})
 	// axioms
 	for _, ax := range e.CS.Axioms {
-		fx.assertAxiom(st, ax)
+		if len(e.CS.axiomGhosts(ax)) == 0 || strings.Contains(ax.Src, "allocTop") {
+			fx.assertAxiom(st, ax)
+		}
 	}
 	if con != nil {
 		for _, r := range con.Requires {
@@ -129,7 +132,7 @@ func (e *Engine) VerifyFunction(fn *ssa.Function, con *Contract) (res *FnResult)
 		}
 	}
 	// vacuity: the precondition together with the type invariants must be satisfiable
-	if r := fx.sol.CheckSat("true"); r.Status == "unsat" {
+	if !fx.sol.FeasibleT(2000) {
 		res.Vacuous = true
 		fx.unsupported("contradictory precondition (vacuous proof)")
 		fx.finish(res, t0)
@@ -203,8 +206,69 @@ func (fx *FnCtx) assertAxiom(st *State, ax *Axiom) {
 	if len(decls) > 0 {
 		body = "(forall (" + strings.Join(decls, " ") + ") " + body + ")"
 	}
-	fx.sol.Assert(body)
+	if fx.lazyAx != nil && fx.lazyAx[ax] == 1 {
+		fx.sol.Sticky(body)
+	} else {
+		fx.sol.Assert(body)
+	}
 	fx.note("axiom assumed: " + ax.Label + " " + ax.Src)
+}
+
+var identCallRe = regexp.MustCompile(`([A-Za-z_][A-Za-z0-9_]*)\(`)
+
+// axiomGhosts: the ghost functions an axiom mentions (directly or through spec functions).
+func (cs *ContractSet) axiomGhosts(ax *Axiom) []string {
+	cs.axMu.Lock()
+	defer cs.axMu.Unlock()
+	if cs.axGhosts == nil {
+		cs.axGhosts = map[*Axiom][]string{}
+	}
+	if g, ok := cs.axGhosts[ax]; ok {
+		return g
+	}
+	seen := map[string]bool{}
+	var out []string
+	var walk func(src string, depth int)
+	walk = func(src string, depth int) {
+		for _, m := range identCallRe.FindAllStringSubmatch(src, -1) {
+			n := m[1]
+			if seen[n] {
+				continue
+			}
+			seen[n] = true
+			if _, ok := cs.GFuncs[n]; ok {
+				out = append(out, n)
+			} else if sf, ok := cs.Specs[n]; ok && depth < 6 {
+				walk(sf.Src, depth+1)
+			}
+		}
+	}
+	walk(ax.Src, 0)
+	cs.axGhosts[ax] = out
+	return out
+}
+
+// ghostUsed: a ghost function is being mentioned; bring in the axioms about it (once per function under verification).
+func (fx *FnCtx) ghostUsed(st *State, name string) {
+	if fx.lazyAx == nil {
+		fx.lazyAx = map[*Axiom]int{}
+	}
+	for _, ax := range fx.eng.CS.Axioms {
+		if fx.lazyAx[ax] != 0 || strings.Contains(ax.Src, "allocTop") {
+			continue
+		}
+		hit := false
+		for _, g := range fx.eng.CS.axiomGhosts(ax) {
+			if g == name {
+				hit = true
+			}
+		}
+		if !hit {
+			continue
+		}
+		fx.lazyAx[ax] = 1
+		fx.assertAxiom(st, ax)
+	}
 }
 
 // fnEnv: spec environment in the scope of the function under verification.
